@@ -1825,7 +1825,7 @@ def fuzz_inputs(ctx: Ctx) -> list[tuple[str, str, str | bytes]]:
 	if ctx.thorough:
 		for name, s in gen.large_sources():
 			out.append(('seed-large', 'in-memory', s))
-	n = ctx.scale(550, 15000)
+	n = ctx.scale(480, 15000)
 	big = [s for _, s in gen.large_sources()] if ctx.thorough else []
 	chunk_share = 0.06 if ctx.thorough else 0.03  # a chunk costs ~0.2 s per run, a small seed ~0.02 s
 	for i in range(n):
@@ -1871,6 +1871,8 @@ def search_fuzz(ctx: Ctx) -> SearchResult:
 	t0 = time.time()
 	budget_s = ctx.scale(240, 3000)  # safety net only: the plan is sized to finish well inside it (a cut would make the key set machine dependent)
 	prev: dict[str, str | bytes | None] = {'in-memory': None, 'on-disk': None, 'on-disk-nontarget': None}
+	recent: dict[str, list[str | bytes]] = {'in-memory': [], 'on-disk': [], 'on-disk-nontarget': []}  # the last 8 inputs of the session, per mode
+	earliest: dict[str, tuple[str, str, str | bytes, pl.Outcome, list[str | bytes]]] = {}  # first occurrence of each key with the inputs before it
 	fatal_sites: Counter[str] = Counter()
 	for kind, mode, data in inputs:
 		if time.time() - t0 > budget_s:
@@ -1892,9 +1894,12 @@ def search_fuzz(ctx: Ctx) -> SearchResult:
 		for k in o.keys():
 			hist[f'key:{k}'] += 1
 			cur = first.get(k)
+			if cur is None:
+				earliest[k] = (kind, mode, data, o, list(recent[mode]))
 			if cur is None or len(_as_text(data)) < len(_as_text(cur[2])):
 				first[k] = (kind, mode, data, o, prev[mode])
 		prev[mode] = data
+		recent[mode] = [*recent[mode][-7:], data]
 		if len(res.samples) < 3 and kind in ('token-mutation', 'ill-typed'):
 			res.samples.append({'kind': kind, 'mode': mode, 'source': _as_text(data)[:120], 'outcome': label})
 	hist['rendered-with-quotation'] = quoted
@@ -1912,6 +1917,16 @@ def search_fuzz(ctx: Ctx) -> SearchResult:
 			# a history effect: the property quantifies over sessions too (interactive mode) — replay the previous input of the session first
 			conf = pl.fresh_outcome(mode, base, data, prefix=[before], post=syntax_oracle)
 			history = [before]
+		if k not in conf.keys() and k in earliest:
+			# a history effect that started earlier in the session: the FIRST input that showed the key, after the last 2 / 4 / 8 inputs before it
+			kind, mode, data, o, before_list = earliest[k]
+			for n in (1, 2, 4, 8):
+				if n > len(before_list) and n > 1 and n // 2 >= len(before_list):
+					break
+				conf = pl.fresh_outcome(mode, base, data, prefix=before_list[-n:], post=syntax_oracle)
+				if k in conf.keys():
+					small, history = data, list(before_list[-n:])
+					break
 		if k not in conf.keys():
 			ctx.notes.append(f'escape {k} seen during the run did not reproduce on a fresh App, alone or after the previous input of the session; input kept in the evidence notes only: {_as_text(data)[:200]!r}')
 			hist[f'unconfirmed:{k}'] += 1
@@ -2304,7 +2319,7 @@ def search_loop_histories(ctx: Ctx) -> SearchResult:
 	for kind in (gen.DEPTH_KINDS if ctx.thorough else ('paren', 'list', 'minus')):
 		for d in (((10, 100, 250, 300, 600) if ctx.thorough else (100, 300)) if kind in ('paren', 'list', 'minus', 'tuple') else (100, 300)):
 			histories.append([gen.DEPTH_KINDS[kind](d), 'b = 2'])
-	for _ in range(ctx.scale(40, 400)):
+	for _ in range(ctx.scale(28, 400)):
 		n = rng.randint(2, 6)
 		h = [rng.choice(selfs) if rng.random() < 0.25 else rng.choice(pool) for _ in range(n)]
 		if rng.random() < 0.35:
@@ -2355,7 +2370,7 @@ def search_loop_histories(ctx: Ctx) -> SearchResult:
 	# the reference rigs only — grammar and library caches warm, `__main__` is never cached)
 	ref_cache = os.path.join(ctx.tmpdir(), 'reference-cache')
 	alone: dict[tuple[str, ...], tuple[str, str]] = {}
-	max_refs = ctx.scale(45, 600)
+	max_refs = ctx.scale(28, 600)
 
 	def alone_outcome(req: list[str]) -> tuple[str, str] | None:
 		k = tuple(req)
